@@ -775,6 +775,11 @@ public:
     if (isa<CXXThisExpr>(E))
       return "this";
     if (auto* X = dyn_cast<MemberExpr>(E)) {
+      // members of anonymous unions/structs: the anonymous level is transparent
+      if (auto* B = dyn_cast<MemberExpr>(strip(X->getBase())))
+        if (B->getMemberDecl()->getName().empty())
+          return path(B->getBase()) + (B->isArrow() ? "->" : ".") +
+                 X->getMemberDecl()->getNameAsString();
       std::string b = path(X->getBase());
       return b + (X->isArrow() ? "->" : ".") +
              X->getMemberDecl()->getNameAsString();
